@@ -1,5 +1,5 @@
 from .. import facts
-from ..rules import matrix
+from ..rules import matrix, wide128
 
 
 def run(ck):
@@ -13,3 +13,4 @@ def run(ck):
     matrix.r6_float_to_fixed_guarded(ck, P)
     matrix.r7_whole_w_tested(ck, P)
     matrix.r8_forward_reverse_order(ck, P)
+    wide128.r9_negate_128(ck, P)
